@@ -512,7 +512,11 @@ Definition es_compute (k : skey) (id : N) : prog :=
             | Ok _ =>
               decisions_loop k ds
                 (Call (CGetEs k id) (fun r3 => match r3 with
-                   | Ok (REs e) => Release (LOp k) (Ret (RpStop (e_stop e)))
+                   | Ok (REs e) =>
+                     if e_active e
+                     then Call (CUpdateEs k (mkEs id false (e_stop e))) (fun r4 => expect_unit r4
+                            (Release (LOp k) (Ret (RpStop (e_stop e)))))
+                     else Release (LOp k) (Ret (RpStop (e_stop e)))
                    | Ok _ => Throw EOther | Err e => Throw e end))
             end)
         | PFail e => Call (CUpdateEs k (mkEs id false false)) (fun r2 => expect_unit r2 (Throw e))
